@@ -77,7 +77,16 @@ type Lemma struct {
 	Line  int
 }
 
+type ReadSet struct {
+	Name    string
+	Field   string
+	Allowed []string
+	Props   []string
+	Line    int
+}
+
 type Contracts struct {
+	ReadSets    []*ReadSet
 	Blocks      map[string]*Block // key: kind+" "+name
 	Order       []*Block
 	Specs       map[string]*Spec
@@ -170,6 +179,24 @@ func loadContracts(path string) (*Contracts, error) {
 			cur = nil
 		case "smt":
 			cs.RawSMT = append(cs.RawSMT, rest)
+			cur = nil
+		case "readset":
+			// readset <name> [props]: T.f only in f1, f2, ...
+			k := strings.Index(rest, ":")
+			if k < 0 {
+				return nil, fail(fmt.Errorf("readset needs ':'"))
+			}
+			head := strings.Fields(rest[:k])
+			body := strings.TrimSpace(rest[k+1:])
+			j := strings.Index(body, " only in ")
+			if j < 0 {
+				return nil, fail(fmt.Errorf("readset: expected 'T.f only in f1, f2'"))
+			}
+			rs := &ReadSet{Name: head[0], Field: strings.TrimSpace(body[:j]), Allowed: splitNames(body[j+9:]), Line: l.no}
+			for _, h := range head[1:] {
+				rs.Props = append(rs.Props, strings.Trim(h, "[],"))
+			}
+			cs.ReadSets = append(cs.ReadSets, rs)
 			cur = nil
 		default:
 			if cur == nil {
